@@ -24,7 +24,7 @@ SICK = [("errno", errno.ENOENT), ("errno", errno.EACCES), ("errno", errno.EMFILE
         ("backing", "text.txt"), ("backing", "empty"), ("backing", "trunc.elf"), ("backing", "adir"),
         ("backing", "garbage.bin"), ("hdr-eio", None)]
 
-BOMB = "?(pos %d !eq || drop drop drop drop drop drop drop drop drop drop)"
+BOMB = "?(%d !eq || drop drop drop drop drop drop drop drop drop drop)"    # fails on the item whose value is %d
 
 BODIES = [
     # (text, class)
@@ -35,8 +35,8 @@ BODIES = [
     ("(1, 2, 3)", "many"), ("[1, 2, 3] elem \"%s\"", "many"), ("(1, 2) (10, 20) add", "many"),
     ("(\"a\", \"b\")", "many"), ("0 (1 add ?(4 ?lt))*", "many"), ("(1, 2, 3) ?(2 ?ne)", "many"),
     ("1 2", "multi"), ("(1, 2) \"x\"", "multi"), ("1 \"two\" 3", "multi"), ("(1, 2) dup", "multi"),
-    ("(1, 2, 3) " + BOMB % 0, "fail"), ("(1, 2, 3) " + BOMB % 1, "fail"), ("(1, 2, 3) " + BOMB % 2, "fail"),
-    ("drop drop drop drop drop drop drop drop drop", "fail"), ("1 (2, 3) " + BOMB % 1, "fail"),
+    ("(1, 2, 3) " + BOMB % 1, "fail"), ("(1, 2, 3) " + BOMB % 2, "fail"), ("(1, 2, 3) " + BOMB % 3, "fail"),
+    ("drop drop drop drop drop drop drop drop drop", "fail"), ("[5, 6, 7] elem " + BOMB % 6, "fail"),
     ("1 )", "reject"), ("nosuchword", "reject"), ("\"abc", "reject"), ("0x", "reject"),
     ("let A := 1; let A := 2;", "reject"), ("?(let A := 1;) A", "reject"), ("(", "reject"),
     ("1 \"a\" add", "soft"), ("(1, 2) apply", "soft"),
@@ -58,7 +58,7 @@ ARG_LIT_SPECIAL = ["100%%", "a%(1 2 add%)b", "%d items", "50%", "q\"uote", "back
                    "printf(\"%s\\n\")", "", "-x", "let"]
 ARG_EVAL = [("1", 1), ("\"s\"", 1), ("(1, 2)", 2), ("(\"a\", \"b\", \"c\")", 3), ("10 20", 1),
             ("1 (== 2)", 0), ("0x1f", 1), ("(7, 8, 9) ?(8 ?ne)", 2), ("[1, 2]", 1),
-            ("1 )", -1), ("nosuch", -1), ("drop", -2), ("(1, 2) " + BOMB % 1, -2)]
+            ("1 )", -1), ("nosuch", -1), ("drop", -2), ("(1, 2) " + BOMB % 2, -2)]
 
 
 # ------------------------------------------------------------------ plan
@@ -110,10 +110,10 @@ def make_plan(rng, idx):
         drops = " ".join(["drop"] * 10)
         if cli["args"] and cli["args"][-1]["kind"] == "eval" and cli["args"][-1]["text"] in ("(1, 2)", "(7, 8, 9) ?(8 ?ne)"):
             k = rng.choice([1, 2, 7, 9])
-            argdep = "(10, 20) ?(pos 1 !eq || over %d !eq || %s)" % (k, drops)
+            argdep = "(10, 20) ?(20 !eq || over %d !eq || %s)" % (k, drops)
         elif nfiles >= 2 and not cli["args"]:
             f = rng.choice(cli["files"])
-            argdep = "(10, 20) ?(pos 1 !eq || over name \"%s\" !eq || %s)" % (vpath(f), drops)
+            argdep = "(10, 20) ?(20 !eq || over name \"%s\" !eq || %s)" % (vpath(f), drops)
     pre = ""
     if nfiles:
         pre, pk = rng.choice(DW_PREFIX)
